@@ -183,3 +183,58 @@ def check_members(run, rule, m, F, E, member_re, member_label):
         n += 1
         judge(run, rule, m, F, E, g, k, member_label)
     return n
+
+
+def accepted_units(I_factory, m, F, E, g, unit_idx):
+    """Set of unit values (0..255) for which a predicate that depends on nothing but the unit answers true, by finite case analysis
+    over the facts of each of its paths; None when some path's answer depends on memory or cannot be evaluated."""
+    from ..terms import eval_lin, base_atoms
+    I = Interp(m, F, E, PredHooks())
+    st = State()
+    args = []
+    u = None
+    for k, p in enumerate(g.params):
+        if k == unit_idx:
+            u = I.fresh_int(st, 8, 'unit')
+            args.append(u)
+        else:
+            return None
+    outs = I.run(I.start(g, args, st))
+    ua = u.lin.single_atom()[0]
+    acc = set()
+    for o in outs:
+        if o.kind != 'ret':
+            return None
+        s2 = o.st
+        rv = o.val
+        lo, hi = s2.arange(ua)
+        facts = [f for f in s2.facts if base_atoms(f)]
+        if any(not (base_atoms(f) <= set([ua])) for f in facts + list(s2.nefacts)):
+            return None
+        vals = []
+        for v in range(max(lo, 0), min(hi, 255) + 1):
+            env = {ua: v}
+            try:
+                if any(eval_lin(f, env) < 0 for f in facts) or any(eval_lin(f, env) == 0 for f in s2.nefacts):
+                    continue
+            except KeyError:
+                return None
+            vals.append(v)
+        if isinstance(rv, IntV) and not rv.lin.t:
+            if rv.lin.c & 1:
+                acc |= set(vals)
+            continue
+        # a returned comparison: decide it per value
+        c = I.cond_of(s2, rv) if isinstance(rv, IntV) else None
+        if c is None:
+            return None
+        for v in vals:
+            s3 = s2.clone()
+            if not s3.assume_eq0(u.lin - v):
+                continue
+            r = I.decide(s3, c)
+            if r is None:
+                return None
+            if r:
+                acc.add(v)
+    return acc
